@@ -16,7 +16,11 @@ import (
 	"sync"
 
 	"github.com/mycoria/mycoria/m"
+
+	"mycoverif/core"
 )
+
+func init() { core.OnExit(Save) }
 
 // Kind selects the address range of an identity.
 type Kind int
